@@ -91,7 +91,7 @@ func vtRender(p *AttrConditionPlanner, ctx *shared.PlannerContext) string {
 func VH_C14_traceql_attr_replan() {
 	vrt.Unwind(300)
 	two := vrt.Bool("two-terms")
-	agg := []string{"", "duration", "span.size"}[vrt.Choice("aggregated-attribute", 3)]
+	agg := []string{"", "duration", "span.size", "span.http.status_code", "resource.k8s.pod.name", ".a.b"}[vrt.Choice("aggregated-attribute", 6)]
 	v1 := "\"" + vrt.String("string-value", 1) + "\""
 	vrt.Assume(v1[1] != '"')
 	vrt.Assume(v1[1] != '\\')
